@@ -432,7 +432,10 @@ def map_back_plan(prep, found):
     from unified_planning.plans import SequentialPlan
 
     plan = SequentialPlan([_ai(prep.cp, a, args) for a, args in found.steps], prep.cp.environment)
-    back = plan.replace_action_instances(prep.result.map_back_action_instance)
+    try:
+        back = plan.replace_action_instances(prep.result.map_back_action_instance)
+    except Exception as e:  # the map-back of a valid compiled plan must produce a plan
+        return None, f"map-back raises {type(e).__name__}: {e}"
     try:
         return _steps_of(prep.pb, back.actions), None
     except ValueError as e:
@@ -443,7 +446,11 @@ def labels(prep):
     """For each compiled ground instance: (orig action name, args) or None (compiler-introduced step) or ("?", reason)."""
     out = []
     for a, args in prep.space_c.instances:
-        r = prep.result.map_back_action_instance(_ai(prep.cp, a, args))
+        try:
+            r = prep.result.map_back_action_instance(_ai(prep.cp, a, args))
+        except Exception as e:
+            out.append(("?", f"map-back raises {type(e).__name__}"))
+            continue
         if r is None:
             out.append(None)
             continue
